@@ -91,12 +91,13 @@ def perms : List Nat → List (List Nat)
 
 /-- RackAffinity for one topic: look for a pair of map iteration orders under which the model reproduces the
 implementation's output for this topic; fall back to the first-appearance order -/
-def rackTopic (ms : List Member) (ps : List Part) (a : Asg) (ids : List Nat) (t : Nat) : Option (List (Nat × List Int)) :=
+def rackTopic (search : Bool) (ms : List Member) (ps : List Part) (a : Asg) (ids : List Nat) (t : Nat) : Option (List (Nat × List Int)) :=
   let sub := appendByTopic t ms
   if sub.isEmpty then some [] else
   let tp := partsOfTopic t ps
   let zones := (tp.map (·.zone)).eraseDups
-  let orders := perms zones
+  -- an output on which the C14 monitor already fails needs no order search (it cannot be a model output: rack_holds)
+  let orders := if search then perms zones else []
   let agrees (es : List (Nat × List Int)) : Bool := ids.all fun id => collect id es == a t id
   let hit := orders.findSome? fun s1 => orders.findSome? fun s2 =>
     match rackAssignTopic sub tp s1 s2 with
@@ -286,11 +287,11 @@ def replayTrace (P : KV.GroupRound.Params) (w : Nat) : KV.GroupRound.St → List
         | _ => acc
       replayTrace P w s' es (k + 1) acc'
 
-def stepTrace (clusterS evS impl : String) : String :=
+def stepTrace (b : List Member → List Part → Asg) (clusterS evS impl : String) : String :=
   match parseList parsePart clusterS, (evS.splitOn "|").mapM parseRawEv with
   | some cluster, some evs =>
     let w := (evs.flatMap rawIds).foldl (fun a b => max a b.length) 0
-    let P : KV.GroupRound.Params := ⟨KV.GroupRound.balanceOf rangeAssign, cluster, List.reverse⟩
+    let P : KV.GroupRound.Params := ⟨KV.GroupRound.balanceOf b, cluster, List.reverse⟩
     match replayTrace P w {} evs 0 [] with
     | .ok obs => let model := if obs.isEmpty then "-" else "|".intercalate obs; answer model (impl == model)
     | .error k => answer s!"rejected-at-event-{k}" false
@@ -301,9 +302,12 @@ def step (line : String) : String :=
   | [req, impl] =>
     let ws := words req
     -- w<balancer> ops carry a 4th field: the subscribed topics the cluster does not have
-    let missS := if ws.length == 4 then ws.getD 3 "-" else "-"
-    match (if ws.length == 4 then ws.take 3 else ws) with
-    | ["ltrace", c, e] => stepTrace c e impl
+    let isW := ws.length == 4 && (ws.getD 0 "").startsWith "w"
+    let missS := if isW then ws.getD 3 "-" else "-"
+    match (if isW then ws.take 3 else ws) with
+    | ["ltrace", c, e] => stepTrace rangeAssign c e impl
+    | ["ltrace2", "range", c, e] => stepTrace rangeAssign c e impl
+    | ["ltrace2", "rr", c, e] => stepTrace rrAssign c e impl
     | "abytes" :: _ => stepWire (words req) impl
     | "aread" :: _ => stepWire (words req) impl
     | "mbytes" :: _ => stepWire (words req) impl
@@ -355,7 +359,8 @@ def step (line : String) : String :=
           answer (render (if viaGlue then asgOfTable tb else rrAssign ms got) idsH ts) (ok && (!wf || rrHoldsOn ms ps a ts ids))
         | "rack" =>
           let zs := sortDedup (ms.map (·.zone) ++ ps.map (·.zone))
-          let per := ts.map fun t => (t, rackTopic ms got a ids t)
+          let holds := ok && (!wf || rackHoldsOn ms ps a ts ids zs)
+          let per := ts.map fun t => (t, rackTopic holds ms got a ids t)
           let m : Asg := fun t id => match per.find? (·.1 == t) with
                                      | some (_, some es) => collect id es
                                      | _ => []
@@ -364,7 +369,7 @@ def step (line : String) : String :=
           let model : String :=
             if per.any (·.2.isNone) then "panic"
             else render (if viaGlue then asgOfTable tb else m) idsH ts
-          answer model (ok && (!wf || rackHoldsOn ms ps a ts ids zs))
+          answer model holds
         | _ => "bad-op"
       | _, _, _ => "bad-args"
     | _ => "bad-op"
